@@ -13,10 +13,13 @@ import (
 	"path/filepath"
 	"runtime"
 	"runtime/debug"
+	"strings"
 	"sync"
 	"syscall"
 	"time"
 	"unsafe"
+
+	"golang.org/x/sys/cpu"
 
 	"github.com/charlievieth/strcase"
 	"github.com/charlievieth/strcase/bytcase"
@@ -29,7 +32,36 @@ var (
 	flagOut    = flag.String("out", "", "")
 	flagReplay = flag.String("replay", "", "")
 	flagProp   = flag.String("prop", "C13", "")
+	flagAsmOps = flag.String("asmops", "", "write a sample of (kernel body, flag, page offset, data, needle, result) cases for the instruction-level model")
 )
+
+// sampled cases for the Lean interpreter of the kernel bodies (tools: driver op `asm`)
+var (
+	asmMu    sync.Mutex
+	asmLines []string
+	asmSeen  = map[[5]int]bool{}
+	asmPer   = map[[3]int]int{} // cases kept per (body, flag, length)
+	asmCap   = 12
+)
+
+// bodyOf names the kernel body a direct entry point dispatches to
+func bodyOf(k kernel, c byte) string {
+	switch k.kind {
+	case 0:
+		if isAlpha(c) {
+			return "indexbytebodyCase"
+		}
+		return "indexbytebody"
+	case 1:
+		if isAlpha(c) {
+			return "countbodyCase"
+		}
+		return "countbody"
+	}
+	return "indexByteBodyNonASCII"
+}
+
+var curAVX2 bool
 
 const page = 4096
 const mid = 3 // accessible pages between the two guard pages
@@ -65,27 +97,43 @@ func refNonASCII(s []byte) int {
 }
 
 type kernel struct {
-	name string
-	kind int // 0 index, 1 count, 2 nonascii
-	call func(s []byte, c byte) int
+	name   string
+	kind   int // 0 index, 1 count, 2 nonascii
+	call   func(s []byte, c byte) int
+	direct bool // the call enters an assembly wrapper directly (no Go code in between)
+}
+
+func (k kernel) kindBody(c byte) int {
+	if isAlpha(c) {
+		return k.kind*2 + 1
+	}
+	return k.kind * 2
+}
+
+func b2i(b bool) int {
+	if b {
+		return 1
+	}
+	return 0
 }
 
 func str(b []byte) string { return unsafe.String(unsafe.SliceData(b), len(b)) }
 
 var kernels = []kernel{
-	{"bytealg.IndexByte", 0, func(s []byte, c byte) int { return verifhooks.IndexByte(s, c) }},
-	{"bytealg.IndexByteString", 0, func(s []byte, c byte) int { return verifhooks.IndexByteString(str(s), c) }},
-	{"bytealg.Count", 1, func(s []byte, c byte) int { return verifhooks.Count(s, c) }},
-	{"bytealg.CountString", 1, func(s []byte, c byte) int { return verifhooks.CountString(str(s), c) }},
-	{"bytealg.IndexNonASCII", 2, func(s []byte, c byte) int { return verifhooks.IndexNonASCII(str(s)) }},
-	{"bytealg.IndexByteNonASCII", 2, func(s []byte, c byte) int { return verifhooks.IndexByteNonASCII(s) }},
-	{"strcase.IndexByteASCII", 0, func(s []byte, c byte) int { return strcase.IndexByteASCII(str(s), c) }},
-	{"bytcase.IndexByteASCII", 0, func(s []byte, c byte) int { return bytcase.IndexByteASCII(s, c) }},
-	{"strcase.IndexNonASCII", 2, func(s []byte, c byte) int { return strcase.IndexNonASCII(str(s)) }},
-	{"bytcase.IndexNonASCII", 2, func(s []byte, c byte) int { return bytcase.IndexNonASCII(s) }},
+	{"bytealg.IndexByte", 0, func(s []byte, c byte) int { return verifhooks.IndexByte(s, c) }, true},
+	{"bytealg.IndexByteString", 0, func(s []byte, c byte) int { return verifhooks.IndexByteString(str(s), c) }, false},
+	{"bytealg.Count", 1, func(s []byte, c byte) int { return verifhooks.Count(s, c) }, true},
+	{"bytealg.CountString", 1, func(s []byte, c byte) int { return verifhooks.CountString(str(s), c) }, false},
+	{"bytealg.IndexNonASCII", 2, func(s []byte, c byte) int { return verifhooks.IndexNonASCII(str(s)) }, false},
+	{"bytealg.IndexByteNonASCII", 2, func(s []byte, c byte) int { return verifhooks.IndexByteNonASCII(s) }, true},
+	{"strcase.IndexByteASCII", 0, func(s []byte, c byte) int { return strcase.IndexByteASCII(str(s), c) }, false},
+	{"bytcase.IndexByteASCII", 0, func(s []byte, c byte) int { return bytcase.IndexByteASCII(s, c) }, false},
+	{"strcase.IndexNonASCII", 2, func(s []byte, c byte) int { return strcase.IndexNonASCII(str(s)) }, false},
+	{"bytcase.IndexNonASCII", 2, func(s []byte, c byte) int { return bytcase.IndexNonASCII(s) }, false},
 }
 
 type viol struct {
+	AVX2      bool
 	Kernel    string
 	Len, Off  int
 	Placement string
@@ -170,6 +218,23 @@ func sweep(k kernel, maxLen int) {
 		got, fault := safeCall(k, s, c)
 		lev++
 		ldist[[4]int{len(data), o & 63, int(c), k.kind}] = true
+		if *flagAsmOps != "" && k.direct && !fault && len(data) <= 200 {
+			a := int(uintptr(unsafe.Pointer(unsafe.SliceData(win)))&(page-1)) + o
+			key := [5]int{k.kindBody(c), len(data), a % page, b2i(curAVX2), want}
+			asmMu.Lock()
+			bk := [3]int{key[0], key[3], key[1]}
+			h := uint32(key[1]*7919+key[2]*104729+key[4]*1299709+key[0]*31) * 2654435761
+			if !asmSeen[key] && asmPer[bk] < asmCap && (h>>16)%5 == 0 {
+				asmSeen[key] = true
+				asmPer[bk]++
+				hx := "-"
+				if len(data) > 0 {
+					hx = fmt.Sprintf("%x", data)
+				}
+				asmLines = append(asmLines, fmt.Sprintf("asm %s %d %d %d %s %d %d", bodyOf(k, c), b2i(curAVX2), a%page, poison, hx, c, got))
+			}
+			asmMu.Unlock()
+		}
 		if fault || got != want {
 			mu.Lock()
 			if len(viols) < 50 {
@@ -177,7 +242,7 @@ func sweep(k kernel, maxLen int) {
 				if len(d) > 96 {
 					d = d[:96]
 				}
-				viols = append(viols, viol{k.name, len(data), o, placement, c, fmt.Sprintf("%x", d), got, want, fault})
+				viols = append(viols, viol{curAVX2, k.name, len(data), o, placement, c, fmt.Sprintf("%x", d), got, want, fault})
 			}
 			mu.Unlock()
 		}
@@ -290,24 +355,41 @@ func main() {
 	maxLen := 300
 	if *flagTier == "thorough" {
 		maxLen = 4352
+		asmCap = 100
 	}
-	var wg sync.WaitGroup
-	for _, k := range kernels {
-		wg.Add(1)
-		go func(k kernel) {
-			defer wg.Done()
-			runtime.LockOSThread()
-			debug.SetPanicOnFault(true)
-			sweep(k, maxLen)
-		}(k)
+	// both values of the CPU feature flag the kernels test: as detected, then forced off (SSE loops at every length)
+	settings := []bool{cpu.X86.HasAVX2}
+	if cpu.X86.HasAVX2 {
+		settings = append(settings, false)
 	}
-	wg.Wait()
+	detected := cpu.X86.HasAVX2
+	for _, av := range settings {
+		cpu.X86.HasAVX2 = av
+		curAVX2 = av
+		var wg sync.WaitGroup
+		for _, k := range kernels {
+			wg.Add(1)
+			go func(k kernel) {
+				defer wg.Done()
+				runtime.LockOSThread()
+				debug.SetPanicOnFault(true)
+				sweep(k, maxLen)
+			}(k)
+		}
+		wg.Wait()
+	}
+	cpu.X86.HasAVX2 = detected
+	if *flagAsmOps != "" {
+		os.WriteFile(*flagAsmOps, []byte(strings.Join(asmLines, "\n")+"\n"), 0o644)
+	}
 	cov := map[string]any{
 		"evaluations":         evals,
 		"distinct_nontrivial": len(distinct),
-		"rule":                fmt.Sprintf("10 kernel entry points x lengths 0..%d x placements (flush against a PROT_NONE page right/left, interior alignments) x match positions (none, each of the first/last 70, plus a second match) x needles; all 256x256 (needle,data) pairs on 8 lengths; distinct = (len, alignment mod 64, needle, kind)", maxLen),
+		"rule":                fmt.Sprintf("each value of cpu.X86.HasAVX2 available on this machine x 10 kernel entry points x lengths 0..%d x placements (flush against a PROT_NONE page right/left, interior alignments) x match positions (none, each of the first/last 70, plus a second match) x needles; all 256x256 (needle,data) pairs on 8 lengths; distinct = (len, alignment mod 64, needle, kind)", maxLen),
 		"samples":             []any{map[string]any{"kernel": "bytealg.IndexByte", "len": 33, "placement": "flush-right", "needle": "k", "match_at": 32}},
 		"max_len":             maxLen,
+		"avx2_settings":       settings,
+		"asm_model_cases":     len(asmLines),
 		"violations":          len(viols),
 	}
 	if len(viols) > 0 {
@@ -329,7 +411,7 @@ func main() {
 		os.WriteFile(path, append([]byte("# property="+*flagProp+" kind=kernel (kernel, len, window offset, needle, data hex, got, want, fault)\n"), data...), 0o644)
 	}
 	v := viols[0]
-	fmt.Printf("DISAGREEMENT %s len=%d off=%d %s needle=%#x got=%d want=%d fault=%v\n", v.Kernel, v.Len, v.Off, v.Placement, v.Needle, v.Got, v.Want, v.Fault)
+	fmt.Printf("DISAGREEMENT avx2=%v %s len=%d off=%d %s needle=%#x got=%d want=%d fault=%v\n", v.AVX2, v.Kernel, v.Len, v.Off, v.Placement, v.Needle, v.Got, v.Want, v.Fault)
 	fmt.Printf("VIOLATION property=%s replay=%s\n", *flagProp, path)
 	os.Exit(1)
 }
